@@ -31,43 +31,44 @@ func (f Frac) Dec() sdk.Dec { return sdk.NewDec(f.Num).Quo(sdk.NewDec(f.Den)) }
 
 // Product = extended pair vault of the fixture.
 type Product struct {
-	ID       uint64 `json:"id"`
-	App      uint64 `json:"app"`
-	Stable   bool   `json:"stable"`
-	CollD    string `json:"collD"` // collateral denom
-	CollA    uint64 `json:"collA"` // collateral asset id
-	DebtD    string `json:"debtD"`
-	DebtA    uint64 `json:"debtA"`
-	MinCr    Frac   `json:"minCr"`
-	DrawFee  Frac   `json:"drawFee"`
-	CloseFee Frac   `json:"closeFee"`
-	StabFee  Frac   `json:"stabFee"`
-	LiqPen   Frac   `json:"liqPen"`
-	Floor    int64  `json:"floor"`
-	Ceiling  int64  `json:"ceiling"`
-	OutOracle bool  `json:"outOracle"`
-	OutPrice int64  `json:"outPrice"`
+	ID        uint64 `json:"id"`
+	App       uint64 `json:"app"`
+	Stable    bool   `json:"stable"`
+	CollD     string `json:"collD"` // collateral denom
+	CollA     uint64 `json:"collA"` // collateral asset id
+	DebtD     string `json:"debtD"`
+	DebtA     uint64 `json:"debtA"`
+	MinCr     Frac   `json:"minCr"`
+	DrawFee   Frac   `json:"drawFee"`
+	CloseFee  Frac   `json:"closeFee"`
+	StabFee   Frac   `json:"stabFee"`
+	LiqPen    Frac   `json:"liqPen"`
+	Floor     int64  `json:"floor"`
+	Ceiling   int64  `json:"ceiling"`
+	OutOracle bool   `json:"outOracle"`
+	OutPrice  int64  `json:"outPrice"`
 }
 
 type Config struct {
-	DecC, DecA, DecS, DecU int64 // asset decimals of uc, ua, us (debt), uu (stable-in)
+	DecC, DecA, DecS, DecU     int64 // asset decimals of uc, ua, us (debt), uu (stable-in)
 	DrawFee, CloseFee, StabFee Frac
-	Batch    uint64
-	Duration uint64 // auction duration seconds
-	Users    []string
-	FundColl int64
-	FundDebt int64 // fixture-minted debt coins per user (bidders), recorded as fixtureMint
-	Interest bool  // register app in rewards so that stability-fee interest accrues
+	Batch                      uint64
+	Duration                   uint64 // auction duration seconds
+	Users                      []string
+	FundColl                   int64
+	FundDebt                   int64 // fixture-minted debt coins per user (bidders), recorded as fixtureMint
+	Interest                   bool  // register app in rewards so that stability-fee interest accrues
+	Bonus                      Frac  // auction bonus of externally initiated auctions
 }
 
 type World struct {
 	*sim.Env
-	Cfg      Config
-	App1     uint64
-	Prods    []Product
-	Assets   map[string]uint64 // denom -> asset id
-	Decs     map[string]int64
-	Denoms   []string
+	Cfg         Config
+	App1        uint64
+	Prods       []Product
+	Assets      map[string]uint64 // denom -> asset id
+	Decs        map[string]int64
+	Denoms      []string
 	FixtureMint int64
 }
 
@@ -178,7 +179,7 @@ func Setup(cfg Config) *World {
 		DutchAuctionParam: &dutch, IsEnglishActivated: true, EnglishAuctionParam: &eng, KeeeperIncentive: sdk.MustNewDecFromStr("0.1")})
 	w.App.NewaucKeeper.SetAuctionParams(w.Ctx, auctypes.AuctionParams{AuctionDurationSeconds: cfg.Duration, Step: sdk.MustNewDecFromStr("0.1"),
 		WithdrawalFee: sdk.ZeroDec(), ClosingFee: sdk.ZeroDec(), MinUsdValueLeft: 0, BidFactor: sdk.MustNewDecFromStr("0.1"),
-		LiquidationPenalty: sdk.MustNewDecFromStr("0.1"), AuctionBonus: sdk.ZeroDec()})
+		LiquidationPenalty: sdk.MustNewDecFromStr("0.1"), AuctionBonus: cfg.Bonus.Dec()})
 	w.App.NewliqKeeper.SetParams(w.Ctx, liqtypes.Params{LiquidationBatchSize: cfg.Batch})
 	if cfg.Interest {
 		must(w.App.Rewardskeeper.WhitelistAppIDVault(w.Ctx, w.App1))
@@ -302,7 +303,7 @@ func (w *World) Project() map[string]interface{} {
 		locked = append(locked, map[string]interface{}{"id": l.LockedVaultId, "app": l.AppId, "orig": l.OriginalVaultId, "prod": l.ExtendedPairId,
 			"owner": who(l.Owner), "coll": i64(l.CollateralToken.Amount), "collD": l.CollateralToken.Denom, "debt": i64(l.DebtToken.Amount),
 			"target": i64(l.TargetDebt.Amount), "fee": i64(l.FeeToBeCollected), "bonus": i64(l.BonusToBeGiven), "initiator": l.InitiatorType,
-			"ikeeper": l.IsInternalKeeper, "keeper": who(l.InternalKeeperAddress), "dutch": l.AuctionType})
+			"ikeeper": l.IsInternalKeeper, "keeper": who(l.InternalKeeperAddress), "dutch": l.AuctionType, "cmst": l.IsDebtCmst, "ext": who(l.ExternalKeeperAddress)})
 	}
 	st["locked"] = locked
 	aucs := []interface{}{}
@@ -356,6 +357,17 @@ func (w *World) Project() map[string]interface{} {
 		rf = append(rf, map[string]interface{}{"asset": w.Assets[d], "amt": amt})
 	}
 	st["reserve"] = rf
+	ef, efFound := app.NewaucKeeper.GetAuctionLimitBidFeeDataExternal(ctx, w.Assets["ust"])
+	efAmt := int64(0)
+	if efFound {
+		efAmt = i64(ef.Amount)
+	}
+	lf, lfFound := app.NewaucKeeper.GetAuctionLimitBidFeeData(ctx, w.Assets["ust"])
+	lfAmt := int64(0)
+	if lfFound {
+		lfAmt = i64(lf.Amount)
+	}
+	st["aucfees"] = map[string]interface{}{"external": efAmt, "limit": lfAmt}
 	return st
 }
 
@@ -366,7 +378,7 @@ func (w *World) ConfigJSON() map[string]interface{} {
 		ps = append(ps, p)
 	}
 	return map[string]interface{}{"prods": ps, "decs": w.Decs, "assets": w.Assets, "batch": w.Cfg.Batch, "duration": w.Cfg.Duration,
-		"users": w.Cfg.Users, "app": w.App1, "premium": Frac{6, 5}, "discount": Frac{7, 10}, "keeperIncentive": Frac{1, 10}, "interest": w.Cfg.Interest}
+		"users": w.Cfg.Users, "app": w.App1, "premium": Frac{6, 5}, "discount": Frac{7, 10}, "keeperIncentive": Frac{1, 10}, "interest": w.Cfg.Interest, "bonus": w.Cfg.Bonus, "extPenalty": Frac{1, 10}}
 }
 
 var _ = time.Second
